@@ -574,9 +574,16 @@ func (s *Subscription) processEvent(event *rescache.ResourceEvent) {
 		return
 	}
 
-	// Bump the version if it is an update
+	// Bump the version if it is an update, and keep the snapshot in sync
+	// with the version in case the resource is sent to the client again.
 	if event.Update {
 		s.version++
+		if event.Model != nil {
+			s.model = event.Model
+		}
+		if event.Collection != nil {
+			s.collection = event.Collection
+		}
 	}
 
 	switch s.resourceSub.GetResourceType() {
